@@ -10,6 +10,8 @@ mod c18;
 mod c19;
 mod prog;
 mod c20;
+mod c05;
+mod c07;
 mod rng;
 
 use std::collections::HashMap;
@@ -60,6 +62,8 @@ fn main() {
         "alusched" => c11::sched_main(&args),
         "shrink" => c02::shrink_main(&args),
         "gadgets" => c20::main(&args),
+        "transcript" => c05::main(&args),
+        "fri" => c07::main(&args),
         _ => {
             eprintln!("unknown subcommand {cmd}");
             std::process::exit(2);
